@@ -12,17 +12,17 @@ import (
 
 // LimitSc is a scenario of the limit2 engine.
 type LimitSc struct {
-	Engine   string   `json:"engine"`
-	Class    string   `json:"class"` // "mixed" or "eager" (everything available, eager consumer)
-	Q        uint64   `json:"q"`
-	I        int64    `json:"i"` // interval in simulated ns
-	InCap    int      `json:"in_cap"`
-	Prefill  int      `json:"prefill"`
-	Bursts   []Burst  `json:"bursts"`
-	ConsDel  []int64  `json:"cons_delays"` // consumer pause after item k (cycled)
-	StallAt  int      `json:"stall_at"`    // consumer stalls once before reading item #StallAt (0 = never)
-	StallFor int64    `json:"stall_for"`
-	Horizon  int64    `json:"horizon"`
+	Engine   string  `json:"engine"`
+	Class    string  `json:"class"` // "mixed" or "eager" (everything available, eager consumer)
+	Q        uint64  `json:"q"`
+	I        int64   `json:"i"` // interval in simulated ns
+	InCap    int     `json:"in_cap"`
+	Prefill  int     `json:"prefill"`
+	Bursts   []Burst `json:"bursts"`
+	ConsDel  []int64 `json:"cons_delays"` // consumer pause after item k (cycled)
+	StallAt  int     `json:"stall_at"`    // consumer stalls once before reading item #StallAt (0 = never)
+	StallFor int64   `json:"stall_for"`
+	Horizon  int64   `json:"horizon"`
 }
 
 // Burst is a producer pause followed by N writes.
